@@ -38,7 +38,7 @@ def run():
         rep.add(Ob(id="cxx.translate", status="unknown", backend="clang", detail=str(e)))
         return rep
     sections_parallel(rep, [("helpers", C10._helpers), ("copies", C10._copies), ("enum", C10._enum), ("fill", C10._fill), ("lemmas", C10._lemmas),
-                            ("bins", C10._bins), ("query", C10._query), ("matches", _matches), ("matches_simple", _matches_simple)], jobs=12)
+                            ("bins", C10._bins), ("query", C10._query), ("matches", _matches), ("matches_simple", _matches_simple), ("wrappers", _wrappers)], jobs=12)
     return rep
 
 
@@ -286,6 +286,110 @@ def _matches_simple(rep):
                loops={("get_matches_simple", 1): LoopSpec(lambda *a: [], havoc, name="queries", body_post=body)})
     finally:
         m.globals["ase"] = old_ase
+
+
+def _wrappers(rep):
+    """Python entry points get_cell_list / get_extended_system: the structure, the extension distance and the cutoff reach the C++ code
+    unchanged (symbolic extension and cutoff: every path)"""
+    from engine.pyvc import Explorer, Interp, sreal
+    m = contexts.geometry_ctx()
+    geo_ns = m.globals["matid"]
+    old_ext = geo_ns._subs["ext"]
+    calls = []
+
+    class Ext:
+        def _getattr(self, interp, attr):
+            if attr in ("get_cell_list", "extend_system"):
+                def f(*a, **k):
+                    calls.append((attr, a, k))
+                    return Opaque(attr + "-result")
+                return f
+            raise Unsupported("matid.ext.%s" % attr)
+
+    geo_ns._subs["ext"] = Ext()
+    try:
+        # get_cell_list(positions, cell, pbc, extension, cutoff)
+        f = m.get("get_cell_list")
+        ex = Explorer(REL + ":get_cell_list")
+        bad = []
+        toks = [Opaque("positions"), Opaque("cell"), Opaque("pbc")]
+
+        def thunk(st):
+            calls.clear()
+            e, c = sreal("extension"), sreal("cutoff")
+            st.assume(z3.And(e.t >= 0, c.t >= 0))
+            r = Interp(st).run_func(f, toks + [e, c], {})
+            ok = len(calls) == 1 and calls[0][0] == "get_cell_list" and isinstance(r, Opaque) and r.tag == "get_cell_list-result"
+            if ok:
+                a = list(calls[0][1]) + [calls[0][2].get(k) for k in ("positions", "cell", "pbc", "extension", "cutoff")][len(calls[0][1]):]
+                ok = all(x is y for x, y in zip(a[:3], toks)) and len(a) == 5
+                if ok:
+                    s = z3.Solver()
+                    s.set("timeout", 5000)
+                    s.add(st.pc)
+                    s.add(z3.Or(z3num(a[3]) != e.t, z3num(a[4]) != c.t))
+                    res = s.check()
+                    if res != z3.unsat:
+                        mdl = s.model() if res == z3.sat else None
+                        bad.append("the C++ cell list is built with extension/cutoff other than the requested ones%s" % (
+                            "" if mdl is None else " (requested extension %s cutoff %s, passed %s / %s)" % (mdl.eval(e.t, True), mdl.eval(c.t, True), mdl.eval(z3num(a[3]), True), mdl.eval(z3num(a[4]), True))))
+            if not ok:
+                bad.append("arguments are not forwarded one-to-one to matid.ext.get_cell_list")
+            return r
+
+        oc = ex.explore(thunk)
+        if any(o[0] == "raise" for o in oc):
+            bad.append("raises %r" % ([o[1] for o in oc if o[0] == "raise"][0],))
+        rep.add(Ob(id="wrapper.get_cell_list-forwards-structure-extension-and-cutoff", status="proved" if not bad else "refuted", backend="pyvc+z3", kind="vc",
+                   func=REL + ":get_cell_list", detail="; ".join(bad)[:600]))
+        from engine.common import func_source_info
+        rep.functions.append(func_source_info(REL, "get_cell_list"))
+        # get_extended_system(system, cutoff)
+        g = m.get("get_extended_system")
+        ex = Explorer(REL + ":get_extended_system")
+        bad2 = []
+        T = {k: Opaque(k) for k in ("positions", "numbers", "cell", "pbc")}
+
+        class Sys:
+            def get_positions(self, wrap=False):
+                return T["positions"]
+
+            def get_atomic_numbers(self):
+                return T["numbers"]
+
+            def get_cell(self):
+                return T["cell"]
+
+            def get_pbc(self):
+                return T["pbc"]
+
+        def thunk2(st):
+            calls.clear()
+            c = sreal("cutoff")
+            st.assume(c.t >= 0)
+            r = Interp(st).run_func(g, [Sys(), c], {})
+            ok = len(calls) == 1 and calls[0][0] == "extend_system" and isinstance(r, Opaque) and r.tag == "extend_system-result" and len(calls[0][1]) == 5 and not calls[0][2]
+            if ok:
+                a = calls[0][1]
+                ok = a[0] is T["positions"] and a[1] is T["numbers"] and a[2] is T["cell"] and a[3] is T["pbc"]
+                s2 = z3.Solver()
+                s2.set("timeout", 5000)
+                s2.add(st.pc)
+                s2.add(z3num(a[4]) != c.t)
+                if ok and s2.check() != z3.unsat:
+                    bad2.append("the system is extended by another distance than the requested one")
+            if not ok:
+                bad2.append("positions / numbers / cell / pbc / distance are not forwarded one-to-one to matid.ext.extend_system")
+            return r
+
+        oc = ex.explore(thunk2)
+        if any(o[0] == "raise" for o in oc):
+            bad2.append("raises %r" % ([o[1] for o in oc if o[0] == "raise"][0],))
+        rep.add(Ob(id="wrapper.get_extended_system-forwards-structure-and-distance", status="proved" if not bad2 else "refuted", backend="pyvc+z3", kind="vc",
+                   func=REL + ":get_extended_system", detail="; ".join(bad2)[:600]))
+        rep.functions.append(func_source_info(REL, "get_extended_system"))
+    finally:
+        geo_ns._subs["ext"] = old_ext
 
 
 def replay_key(ob):
